@@ -193,7 +193,7 @@ def apply_edits(item, edits, twin_false=False):
         elif k == "abstract-span":
             item.abstract_span(at["anchor"], int(at.get("nth", "1")), at.get("tail", ""), e["a"], at.get("why", ""))
         elif k == "desugar-iter-chain":
-            item.desugar_iter_chain(at["source"], int(at.get("nth", "1")), at["elem"], at.get("out", "__out"))
+            item.desugar_iter_chain(at["source"], int(at.get("nth", "1")), at["elem"], at.get("out", "__out"), at.get("call"))
         elif k == "desugar-for":
             item.desugar_for(int(at["loop"]), at.get("it", "vit"))
         elif k == "sinks":
